@@ -88,7 +88,7 @@ def state_streams(ctx: Ctx) -> None:
     rng = ctx.rng.__class__(f"C17-states/{ctx.seed}")
     conv = c14.Conv()
     names = sorted(STATE_MODELS)
-    n = 60000 if ctx.thorough else 8000
+    n = 200000 if ctx.thorough else 8000
     Rnd = rng.__class__
     for si in range(n):
         if not ctx.mine(si):
@@ -597,6 +597,19 @@ def unsubscribe_inside_callback(ctx: Ctx) -> None:
                         res.violation("C17/unsubscribe/inside-callback", f"one-shot {which} callback invoked {len(got)}x for 3 messages (it unsubscribes itself in the first)", case, trace=sim.trace(30))
                     if second_subscriber and len(other) != 3:
                         res.violation("C17/unsubscribe/inside-callback-disturbed-peer", f"the other {which} subscriber got {len(other)} of 3 messages", case, trace=sim.trace(30))
+                    # the unsubscribe function called once more, later: harmless for everybody else
+                    try:
+                        holder["unsub"]()
+                        second_error = None
+                    except Exception as e:  # noqa: BLE001
+                        second_error = e
+                    n_other = len(other)
+                    send_stream(sim, dconn, [mk(4), pb.SensorStateResponse(key=4, state=4.0)], [2] if same_chunk else [1, 1])
+                    sim.run_for(0.01)
+                    if second_error is not None or len(got) != 1 or (second_subscriber and len(other) != n_other + 1) or states[-1].key != 4:
+                        res.violation("C17/unsubscribe/called-twice", f"second call of the {which} unsubscribe function: raised {second_error!r}; one-shot calls {len(got)}, "
+                                      f"other subscriber +{len(other) - n_other} of 1, last state key {states[-1].key if states else None}", case, trace=sim.trace(30))
+                    states = states[:3]
                     if [s_.key for s_ in states] != [1, 2, 3] or conn_state != "CONNECTED":
                         res.violation("C17/unsubscribe/inside-callback-disturbed-others", f"state subscriber got keys {[s_.key for s_ in states]} of [1, 2, 3]; connection {conn_state}",
                                       case, trace=sim.trace(30))
